@@ -1,0 +1,14 @@
+//go:build verif
+
+package loader
+
+// Thin exported wrappers of the unexported local resource loader, so that a verification harness can drive
+// its path arithmetic directly.  Compiled only with the `verif` build tag.
+
+func VerifLocalLoaderDir(workingDir, path string) string {
+	return localResourceLoader{WorkingDir: workingDir}.Dir(path)
+}
+
+func VerifLocalLoaderAbs(workingDir, path string) string {
+	return localResourceLoader{WorkingDir: workingDir}.abs(path)
+}
